@@ -120,6 +120,13 @@ def r06_1(ctx, m, info):
             if k.arg == "start":
                 start = const_value(k.value, "?")
         srt = it.args[0]
+        if isinstance(srt, ast.Name):
+            from ..core import reaching_def
+
+            d_ = reaching_def(dec.node, inner, srt.id)
+            if d_ is None:
+                raise AnalysisError("R06.1", dec.where(inner), f"cannot find the definition of the enumerated list `{srt.id}`")
+            srt = d_
     ok_sorted = ok_enum and isinstance(srt, ast.Call) and isinstance(srt.func, ast.Name) and srt.func.id == "sorted" and len(srt.args) == 1 and not srt.keywords
     ctx.check(bool(ok_sorted), "R06.1", dec.where(inner), "bubble nodes are enumerated in sorted() order of their ids (no key=, no reverse=: lexicographic)", key_of(dec, f"bubble-order:{norm(it)}"), iter=norm(it))
     if ok_enum and isinstance(inner.target, ast.Tuple) and len(inner.target.elts) == 2:
@@ -600,6 +607,48 @@ def r06_10(ctx, m):
         lits = "".join(p[1] for p in parts if p[0] == "lit") if parts else ""
         if any(ch in lits for ch in " \t"):
             ctx.holds("R06.10", dec.where(c), f"a bubble's id in the collapsed graph (`{norm(src)[:50]}`) contains a blank: no segment name can equal it")
+            # ... and no two bubbles share an id: the variable part is a running index / counter, not a function of the
+            # component's end nodes (two tips hanging off one articulation point have the same set of ends)
+            lp = None
+            for l in walk_own(dec.node):
+                if isinstance(l, ast.For) and any(x is c for x in ast.walk(l)) and (lp is None or any(x is l for x in ast.walk(lp))):
+                    lp = l
+            holes = []
+            if lp is not None:
+                # the id as written, with the loop's own single-assignment temporaries expanded (not the end-node set, not the containers)
+                import copy as _copy
+
+                ends_vars0 = {st.targets[0].id for st in walk_stmts(lp.body) if isinstance(st, ast.Assign) and isinstance(st.targets[0], ast.Name) and (".intersection(" in norm(st.value) or (isinstance(st.value, ast.BinOp) and isinstance(st.value.op, ast.BitAnd)))}
+                ldefs = {}
+                for st in walk_stmts(lp.body):
+                    if isinstance(st, ast.Assign) and len(st.targets) == 1 and isinstance(st.targets[0], ast.Name):
+                        ldefs.setdefault(st.targets[0].id, []).append(st.value)
+                ldefs = {k: v[0] for k, v in ldefs.items() if len(v) == 1 and k not in ends_vars0}
+
+                class _R(ast.NodeTransformer):
+                    def visit_Name(self, n_):
+                        return _copy.deepcopy(ldefs[n_.id]) if isinstance(n_.ctx, ast.Load) and n_.id in ldefs else n_
+
+                e_ = _copy.deepcopy(a)
+                for _ in range(3):
+                    e_ = _R().visit(e_)
+                try:
+                    holes = [p_[1] for p_ in tmpl.of_expr(ast.fix_missing_locations(e_)) if p_[0] == "hole"]
+                except tmpl.TemplateError:
+                    holes = []
+            hnames = {x.id for h in holes for x in ast.walk(h) if isinstance(x, ast.Name)}
+            if lp is not None and holes:
+                appended = {norm(x.func.value) for x in ast.walk(lp) if isinstance(x, ast.Call) and isinstance(x.func, ast.Attribute) and x.func.attr == "append"}
+                counters = {norm(x.target) for x in ast.walk(lp) if isinstance(x, ast.AugAssign) and isinstance(x.op, ast.Add) and const_value(x.value) == 1}
+                enum_vars = {e_.id for l in walk_own(dec.node) if isinstance(l, ast.For) and any(x is c for x in ast.walk(l)) and isinstance(l.iter, ast.Call) and norm(l.iter.func) == "enumerate" and isinstance(l.target, ast.Tuple) for e_ in [l.target.elts[0]] if isinstance(e_, ast.Name)}
+                running = any(isinstance(x, ast.Call) and norm(x.func) == "len" and x.args and norm(x.args[0]) in appended for h in holes for x in ast.walk(h)) or bool(hnames & (counters | enum_vars))
+                ends_vars = {st.targets[0].id for st in walk_stmts(lp.body) if isinstance(st, ast.Assign) and isinstance(st.targets[0], ast.Name) and (".intersection(" in norm(st.value) or (isinstance(st.value, ast.BinOp) and isinstance(st.value.op, ast.BitAnd)))}
+                if running:
+                    ctx.holds("R06.10", dec.where(c), "the variable part of a bubble's id is a running index: no two bubbles share an id")
+                elif hnames and hnames - {"sorted", "str", "list", "tuple"} <= ends_vars:
+                    ctx.violated("R06.10", dec.where(c), f"a bubble's id (`{norm(src)[:60]}`) is a function of the component's articulation points only: two blocks that hang off the same articulation point (a chain forking into two tips at its end) get the same id, collapse into one node of the scaffold graph, and a component that is not a chain is ordered as one (with nodes left out)", key_of(dec, f"bubble-id-not-unique:{norm(a)[:40]}"))
+                else:
+                    raise AnalysisError("R06.10", dec.where(c), f"cannot decide whether the ids `{norm(src)[:60]}` of two bubbles can coincide")
         elif isinstance(src, ast.Call) and norm(src.func) == "str" or (parts is not None and not lits):
             ctx.violated("R06.10", dec.where(c), f"a bubble is entered into the collapsed graph under `{norm(a)[:50]}`, the bare index: in a graph whose segments are named 0, 1, 2, ... it coincides with an articulation point, the two are merged and the chain is no longer recognised (the chromosome is skipped or mis-ordered)", key_of(dec, f"bubble-id-collides:{norm(a)[:40]}"))
         else:
